@@ -8,6 +8,13 @@
 //! * `io_cancel`  – cancel of a coroutine blocked in read / accept at a seeded moment: Cancel error at join, what it
 //!                  owned is closed (peer sees EOF), other connections' transfers are unaffected.
 //! PARTIAL BY NATURE: the kernel is not verified; no oracle depends on a real-time *upper* bound.
+//!
+//! Nothing here is opt-in: time-outs go down to 0.3 ms in `io_timeout`, `io_timeout_race` is a regular family. On a tree WITHOUT
+//! `fix: io-timer-handle-race` these shapes fail with the stable prefix `F26:` (a runtime thread panicked in `RefCell::borrow_mut` /
+//! `with_mut_data`, an operation without a time-out got TimedOut, a timed read never returned); on a tree WITHOUT
+//! `fix: io-stale-set_io` the two-socket victim of `io_cancel` fails with `F27:` (the cancelled coroutine is never resumed).
+//! Which of the two repairs the tree has is read from its source (`source_flags`) and written into the scenario header
+//! (`timerfix=` / `regfirst=`): the replay model runs the matching variant, so the same check works on both kinds of tree.
 use super::{spawn_actor_thread, LiveBuilt};
 use crate::rt::{call, ret, Rng};
 use may::coroutine;
@@ -39,7 +46,7 @@ fn set_buf(fd: i32, name: i32, bytes: i32) {
 
 type Fails = Arc<Mutex<Vec<String>>>;
 fn fail(f: &Fails, s: String) {
-    f.lock().unwrap_or_else(|e| e.into_inner()).push(s);
+    f.lock().unwrap().push(s);
 }
 
 /// deterministic payload of connection `id`
@@ -80,7 +87,7 @@ static SOCKS: Mutex<Vec<Box<dyn std::any::Any + Send>>> = Mutex::new(Vec::new())
 /// also reads `io_data`, a reference into the caller's socket object, after it published the coroutine)
 fn park_sock<T: Send + 'static>(t: T) {
     if keepalive() {
-        SOCKS.lock().unwrap_or_else(|e| e.into_inner()).push(Box::new(t));
+        SOCKS.lock().unwrap().push(Box::new(t));
     }
 }
 fn keepalive() -> bool {
@@ -88,7 +95,154 @@ fn keepalive() -> bool {
 }
 fn scenario_begin() {
     quiet_panics();
+    install_stalls();
+    clear_stalls();
     RELEASE.store(false, Ordering::SeqCst);
+    RT_PANICS.lock().unwrap().clear();
+}
+
+// ---- targeted stalls: seeded delays in front of three hooked operations, on top of the random perturbation of `vh live` (which
+// delays every hooked operation with the same small probability: the chains below need two or three long delays at the right
+// places, too rare to be met by chance within the budget of a check run). The installed hook table is wrapped; with no stall
+// planned the wrapper only passes through.
+//   * STALL_TAIL_US    – one-shot: the next subscribing kernel tail, between arming the io timer and `co.store`: the timer fires
+//                        before the coroutine is published (the window of 999f25c);
+//   * STALL_HANDLER_US – one-shot: the next timeout handler, before its `co.take`: meanwhile the re-run coroutine retries and publishes itself for a
+//                        LATER wait (finding 5; with the fix the handler holds the cell's lock and everybody waits for it);
+//   * STALL_SETIO_US   – one-shot: the next `CancelIoImpl` registration (`set_io`) of any kernel tail: without the fix it comes after
+//                        the publication and can be overtaken by a whole later operation of the same coroutine (finding 6)
+static STALL_TAIL_US: std::sync::atomic::AtomicU64 = std::sync::atomic::AtomicU64::new(0);
+static STALL_HANDLER_US: std::sync::atomic::AtomicU64 = std::sync::atomic::AtomicU64::new(0);
+static STALL_SETIO_US: std::sync::atomic::AtomicU64 = std::sync::atomic::AtomicU64::new(0);
+static INNER_HOOKS: std::sync::OnceLock<&'static may::verif::Hooks> = std::sync::OnceLock::new();
+thread_local! {
+    static IN_HANDLER: std::cell::Cell<bool> = const { std::cell::Cell::new(false) };
+    static ARMING: std::cell::Cell<bool> = const { std::cell::Cell::new(false) };
+}
+fn inner_hooks() -> &'static may::verif::Hooks {
+    INNER_HOOKS.get().unwrap()
+}
+fn stall_before(ev: &may::verif::Ev) {
+    let f = ev.site.file();
+    let mut us = 0;
+    if f.ends_with("io/sys/unix/mod.rs") {
+        match ev.op {
+            "t.fire" => IN_HANDLER.set(true),
+            "t.stale" => IN_HANDLER.set(false),
+            "t.arm" => ARMING.set(true),
+            // (one-shot each: a tail that is late on EVERY retry would turn the retry of 999f25c into a loop that only ends by chance)
+            "opt.take" if IN_HANDLER.get() => {
+                IN_HANDLER.set(false);
+                us = STALL_HANDLER_US.swap(0, Ordering::Relaxed);
+            }
+            "opt.store" if ARMING.get() => {
+                ARMING.set(false);
+                us = STALL_TAIL_US.swap(0, Ordering::Relaxed);
+            }
+            _ => {}
+        }
+    } else if ev.op == "opt.store" && f.ends_with("io/sys/unix/cancel.rs") {
+        us = STALL_SETIO_US.swap(0, Ordering::Relaxed);
+    }
+    if us > 0 {
+        std::thread::sleep(Duration::from_micros(us));
+    }
+    (inner_hooks().before)(ev)
+}
+fn stall_after(ev: &may::verif::Ev, r: u64, flag: u8) {
+    (inner_hooks().after)(ev, r, flag)
+}
+fn stall_park(a: usize, d: Option<Duration>) -> Option<bool> {
+    (inner_hooks().park)(a, d)
+}
+fn stall_unpark(a: usize) -> bool {
+    (inner_hooks().unpark)(a)
+}
+fn stall_note(k: &'static str, w: &str) {
+    (inner_hooks().note)(k, w)
+}
+fn stall_now() -> Option<u64> {
+    (inner_hooks().now)()
+}
+static STALL_HOOKS: may::verif::Hooks =
+    may::verif::Hooks { before: stall_before, after: stall_after, park: stall_park, unpark: stall_unpark, note: stall_note, now: stall_now };
+fn install_stalls() {
+    use std::sync::Once;
+    static ONCE: Once = Once::new();
+    ONCE.call_once(|| {
+        if let Some(h) = may::verif::hooks() {
+            let _ = INNER_HOOKS.set(h);
+            may::verif::install(&STALL_HOOKS);
+        }
+    });
+}
+fn clear_stalls() {
+    STALL_TAIL_US.store(0, Ordering::Relaxed);
+    STALL_HANDLER_US.store(0, Ordering::Relaxed);
+    STALL_SETIO_US.store(0, Ordering::Relaxed);
+}
+
+/// which of the two repairs does the tree under test have? (derived from its source, like `subscribe_registers_first` of the cancel
+/// families): `timerfix` – `EventData::arm_timer` exists (the timer-handle cell is a lock that carries the wait number);
+/// `regfirst` – `SocketRead::subscribe` calls `set_io` before it publishes the coroutine
+pub fn source_flags() -> String {
+    use std::sync::OnceLock;
+    static FLAGS: OnceLock<String> = OnceLock::new();
+    FLAGS
+        .get_or_init(|| {
+            let repo = std::env::var("VERIF_REPO").unwrap_or_else(|_| "/repo".into());
+            let timerfix = std::fs::read_to_string(format!("{repo}/src/io/sys/unix/mod.rs")).map(|s| s.contains("pub fn arm_timer")).unwrap_or(false);
+            let regfirst = std::fs::read_to_string(format!("{repo}/src/io/sys/unix/net/socket_read.rs"))
+                .map(|s| match (s.find(".set_io("), s.find(".co.store(")) {
+                    (Some(a), Some(b)) => a < b,
+                    _ => false,
+                })
+                .unwrap_or(false);
+            format!("timerfix={} regfirst={}", timerfix as u8, regfirst as u8)
+        })
+        .clone()
+}
+
+/// panics of threads of the may runtime (workers, selectors) inside the io code or the timer list – never expected
+static RT_PANICS: Mutex<Vec<String>> = Mutex::new(Vec::new());
+/// a scenario of this process has hung: the runtime is damaged (a worker thread is dead, a coroutine is lost), the remaining
+/// scenarios of the process cannot tell anything
+static POISONED: AtomicBool = AtomicBool::new(false);
+static POISON_TAG: Mutex<String> = Mutex::new(String::new());
+fn poison(v: &[String]) {
+    let tag = v.iter().find(|f| is_tagged(f)).map(|f| f[..3].to_string()).unwrap_or_else(|| "hang".into());
+    *POISON_TAG.lock().unwrap() = tag;
+    POISONED.store(true, Ordering::SeqCst);
+}
+
+/// wait for `done()`; gives up (false) when no hooked event has happened for `quiet_ms` while it is still false
+fn wait_quiet<F: Fn() -> bool>(done: F, quiet_ms: u64) -> bool {
+    let mut last = crate::rt::LIVE_EVENTS.load(Ordering::Relaxed);
+    let mut quiet = Instant::now();
+    loop {
+        if done() {
+            return true;
+        }
+        let n = crate::rt::LIVE_EVENTS.load(Ordering::Relaxed);
+        if n != last {
+            last = n;
+            quiet = Instant::now();
+        } else if quiet.elapsed() >= Duration::from_millis(quiet_ms) {
+            return false;
+        }
+        std::thread::sleep(Duration::from_micros(200));
+    }
+}
+
+/// the scenario that runs instead of a real one once the process is poisoned (it still creates a socket: every io trace shows the
+/// socket-birth hook)
+fn poisoned_run(fails: &Fails) -> Option<Vec<String>> {
+    if !POISONED.load(Ordering::SeqCst) {
+        return None;
+    }
+    drop(UdpSocket::bind("127.0.0.1:0"));
+    fail(fails, format!("{}: skipped: an earlier scenario of this process hung, the runtime is damaged (see the first failure)", POISON_TAG.lock().unwrap()));
+    Some(fails.lock().unwrap().clone())
 }
 /// wait until no hooked event has happened for a while (all kernel tails are through), then let everything go
 fn settle() {
@@ -111,16 +265,32 @@ fn settle() {
 fn scenario_end(fails: &Fails) -> Vec<String> {
     settle();
     RELEASE.store(true, Ordering::SeqCst);
-    let ts: Vec<_> = std::mem::take(&mut *THREADS.lock().unwrap_or_else(|e| e.into_inner()));
+    let ts: Vec<_> = std::mem::take(&mut *THREADS.lock().unwrap());
     for t in ts {
         let _ = t.join();
     }
-    KEEP.lock().unwrap_or_else(|e| e.into_inner()).clear();
-    let socks: Vec<_> = std::mem::take(&mut *SOCKS.lock().unwrap_or_else(|e| e.into_inner()));
+    KEEP.lock().unwrap().clear();
+    let socks: Vec<_> = std::mem::take(&mut *SOCKS.lock().unwrap());
     drop(socks);
     // the closes produce epoll events (HUP): let the selectors get through them inside this scenario
     settle();
-    let v = fails.lock().unwrap_or_else(|e| e.into_inner()).clone();
+    let mut v: Vec<String> = std::mem::take(&mut *RT_PANICS.lock().unwrap());
+    v.extend(fails.lock().unwrap().iter().cloned());
+    tag_consequences(v)
+}
+/// once a scenario has failed with one of the labelled findings, whatever else its oracles say is a consequence of it
+fn is_tagged(f: &str) -> bool {
+    f.starts_with("F26:") || f.starts_with("F27:") || f.starts_with("F28:")
+}
+fn tag_consequences(mut v: Vec<String>) -> Vec<String> {
+    let tag = v.iter().find(|f| is_tagged(f)).map(|f| f[..3].to_string());
+    if let Some(tag) = tag {
+        for f in v.iter_mut() {
+            if !is_tagged(f) {
+                *f = format!("{tag}: (consequence) {f}");
+            }
+        }
+    }
     v
 }
 
@@ -130,6 +300,12 @@ enum Joiner {
     Th(Arc<(AtomicBool, AtomicBool)>),
 }
 impl Joiner {
+    fn is_done(&self) -> bool {
+        match self {
+            Joiner::Co(h) => h.is_done(),
+            Joiner::Th(st) => st.0.load(Ordering::SeqCst),
+        }
+    }
     /// Ok(()) | Err(is_cancel)
     fn join(self) -> Result<(), bool> {
         match self {
@@ -177,7 +353,7 @@ fn spawn_thread<F: FnOnce() + Send + 'static>(name: &str, f: F) -> Joiner {
             std::thread::sleep(Duration::from_micros(200));
         }
     });
-    THREADS.lock().unwrap_or_else(|e| e.into_inner()).push(h);
+    THREADS.lock().unwrap().push(h);
     Joiner::Th(st)
 }
 
@@ -186,7 +362,7 @@ fn spawn_actor<F: FnOnce() + Send + 'static>(name: &str, is_co: bool, f: F) -> J
     if is_co {
         let h = unsafe { coroutine::Builder::new().name(name.into()).stack_size(0x4000).spawn(f).unwrap() };
         if keepalive() {
-            KEEP.lock().unwrap_or_else(|e| e.into_inner()).push(h.coroutine().clone());
+            KEEP.lock().unwrap().push(h.coroutine().clone());
         }
         Joiner::Co(h)
     } else {
@@ -197,10 +373,34 @@ fn spawn_actor<F: FnOnce() + Send + 'static>(name: &str, is_co: bool, f: F) -> J
 fn quiet_panics() {
     use std::sync::Once;
     static ONCE: Once = Once::new();
-    if std::env::var("VH_LOUD").is_ok() {
-        return;
-    }
-    ONCE.call_once(|| std::panic::set_hook(Box::new(|_| {})));
+    ONCE.call_once(|| {
+        let loud = std::env::var("VH_LOUD").is_ok();
+        let prev = std::panic::take_hook();
+        std::panic::set_hook(Box::new(move |info| {
+            // a panic inside the io code / the timer list is a panic of the runtime itself (the Cancel panic of a victim and the
+            // panics of the harness' own actors have other locations)
+            if let Some(l) = info.location() {
+                let f = l.file();
+                if f.contains("src/io/") || f.contains("mpsc_list") || f.contains("timeout_list") {
+                    let msg = info
+                        .payload()
+                        .downcast_ref::<&str>()
+                        .map(|s| s.to_string())
+                        .or_else(|| info.payload().downcast_ref::<String>().cloned())
+                        .unwrap_or_else(|| "?".into());
+                    let t = std::thread::current();
+                    RT_PANICS.lock().unwrap_or_else(|e| e.into_inner()).push(format!(
+                        "F26: thread {:?} of the may runtime panicked: {msg} at {f}:{} (the coroutine it was about to run is lost)",
+                        t.name().unwrap_or("?"),
+                        l.line()
+                    ));
+                }
+            }
+            if loud {
+                prev(info);
+            }
+        }))
+    });
 }
 
 /// a connected byte stream of either kind
@@ -274,11 +474,11 @@ fn tcp_pair(l: &TcpListener, a: std::net::SocketAddr) -> (TcpStream, TcpStream) 
     let slot = Arc::new(Mutex::new(None));
     let s2 = slot.clone();
     let c = spawn_thread("setup", move || {
-        *s2.lock().unwrap_or_else(|e| e.into_inner()) = Some(std_connect(a).unwrap());
+        *s2.lock().unwrap() = Some(std_connect(a).unwrap());
     });
     let (s, _) = l.accept().unwrap();
     let _ = c.join();
-    let c = slot.lock().unwrap_or_else(|e| e.into_inner()).take().unwrap();
+    let c = slot.lock().unwrap().take().unwrap();
     (s, c)
 }
 
@@ -652,7 +852,7 @@ pub fn build_stream(rng: &mut Rng, tier: u32) -> LiveBuilt {
             if p.r_co { "co" } else { "thread" }
         );
         return LiveBuilt {
-            header,
+            header: format!("{header} {}", source_flags()),
             filter: FILTER.to_vec(),
             hang_ms: 4000,
             run: Box::new(move || {
@@ -678,7 +878,7 @@ pub fn build_stream(rng: &mut Rng, tier: u32) -> LiveBuilt {
         plans.iter().map(|p| format!("{}{}", if p.w_co { 'c' } else { 't' }, if p.r_co { 'c' } else { 't' })).collect::<Vec<_>>().join("-")
     );
     LiveBuilt {
-        header,
+        header: format!("{header} {}", source_flags()),
         filter: FILTER.to_vec(),
         hang_ms: 4000,
         run: Box::new(move || {
@@ -709,10 +909,10 @@ enum TOp {
     After { ms: Option<u64>, delay_us: u64, n: usize },
 }
 
-/// `race` = the reproducer family `io_timeout_race` for the finding "io time-out armed before the coroutine is published"
-/// (pending_fixes/io-timeout-arm-before-publish.patch): time-outs of 0.3–3 ms, which the perturbation of the hooked
-/// operations between `add_io_timer` and `co.store` can exceed; the time-out is then lost and the read blocks for ever
-/// (reported as `hang`). The default family uses time-outs >= 20 ms, far above the widest perturbation (3 x 2 ms).
+/// `race` = family `io_timeout_race`: time-outs of 0.3–3 ms only, which the perturbation of the hooked operations around
+/// `add_io_timer` / `co.store` / the re-check can exceed – the timer fires while the wait it belongs to is being set up, completed or
+/// already over (findings 2 and 5: time-out armed before publication; timer-handle race, `F26:`). The plain family mixes these with
+/// time-outs up to 64 ms, whole and non-integral milliseconds.
 pub fn build_timeout(rng: &mut Rng, tier: u32, race: bool) -> LiveBuilt {
     let seed = rng.next();
     let kind = rng.below(3); // 0 tcp, 1 unix stream, 2 udp
@@ -720,22 +920,26 @@ pub fn build_timeout(rng: &mut Rng, tier: u32, race: bool) -> LiveBuilt {
     let nops = 2 + rng.below(if tier > 0 { 6 } else { 3 }) as usize;
     let mut ops = vec![];
     let mut last_ms = 0u64;
+    // race family, 2 of 3 scenarios: targeted stalls (see `STALL_TAIL_US`); `inject` 1 = the timer fires before the coroutine is
+    // published, 2 = in addition the handler is held before its `co.take`, and the scenario begins with a 1 ms `idle` followed by a read
+    // WITHOUT a time-out that is fed late: a timer that leaks out of the first read ends the second one
+    let inject = if race { rng.below(3) } else { 0 };
+    let stall_tail_us = 1100 + rng.below(900);
+    let stall_handler_us = 2000 + rng.below(3000);
+    if inject == 2 {
+        ops.push(TOp::Idle { us: [300u64, 999, 1000][rng.below(3) as usize] });
+        ops.push(TOp::After { ms: None, delay_us: 3000 + rng.below(3000), n: 1 + rng.below(300) as usize });
+    }
     for _ in 0..nops {
         let small = if race {
             [300u64, 999, 1000, 1500, 2000, 3000][rng.below(6) as usize]
         } else {
-            // time-outs below 20 ms only with VH_IO_SMALL_TIMEOUTS=1 (and in the race family): on /repo HEAD the timer handle cell is
-            // an unsynchronised RefCell and `with_mut_data` panics on a popped entry – a timer that fires while the operation is being
-            // completed kills a worker thread (hang); pending_fixes/io-timer-handle-race.patch. The generator draws the same number
-            // of values either way.
-            {
-                let (i, j) = (rng.below(11) as usize, rng.below(7) as usize);
-                let ms = if std::env::var("VH_IO_SMALL_TIMEOUTS").is_ok() {
-                    [1u64, 2, 3, 5, 8, 13, 20, 21, 33, 50, 64][i]
-                } else {
-                    [20u64, 21, 25, 30, 33, 40, 50, 64, 22, 27, 36][i]
-                };
-                ms * 1000 + [0u64, 0, 0, 1, 250, 500, 999][j]
+            let (i, j) = (rng.below(12) as usize, rng.below(7) as usize);
+            let us = [300u64, 700, 1000, 2000, 3000, 5000, 8000, 13000, 20000, 33000, 50000, 64000][i];
+            if us < 1000 {
+                us
+            } else {
+                us + [0u64, 0, 0, 1, 250, 500, 999][j]
             }
         };
         let op = match rng.below(if last_ms > 0 { 4 } else { 3 }) {
@@ -755,7 +959,7 @@ pub fn build_timeout(rng: &mut Rng, tier: u32, race: bool) -> LiveBuilt {
         ops.push(op);
     }
     let header = format!(
-        "family={} kind={} reader={} ops={}",
+        "family={} inject={inject} kind={} reader={} ops={}",
         if race { "io_timeout_race" } else { "io_timeout" },
         ["tcp", "unix", "udp"][kind as usize],
         if r_co { "co" } else { "thread" },
@@ -769,12 +973,21 @@ pub fn build_timeout(rng: &mut Rng, tier: u32, race: bool) -> LiveBuilt {
             .join(",")
     );
     LiveBuilt {
-        header,
+        header: format!("{header} {}", source_flags()),
         filter: FILTER.to_vec(),
-        hang_ms: 6000,
+        hang_ms: 8000,
         run: Box::new(move || {
             scenario_begin();
             let fails: Fails = Arc::new(Mutex::new(vec![]));
+            if let Some(v) = poisoned_run(&fails) {
+                return v;
+            }
+            if inject >= 1 {
+                STALL_TAIL_US.store(stall_tail_us, Ordering::Relaxed);
+            }
+            if inject >= 2 {
+                STALL_HANDLER_US.store(stall_handler_us, Ordering::Relaxed);
+            }
             // the two ends
             enum E {
                 S(Stream),
@@ -814,7 +1027,10 @@ pub fn build_timeout(rng: &mut Rng, tier: u32, race: bool) -> LiveBuilt {
                             std::thread::sleep(Duration::from_micros(100));
                             continue;
                         }
-                        next = g + 1;
+                        // every operation that is fed is served, in order – also when this thread was held up so long that the
+                        // reader has meanwhile timed out and moved on (the data then comes out of a later read, see the reader)
+                        let g = next;
+                        next += 1;
                         let (delay_us, n) = match ops[g] {
                             TOp::Fed { delay_us, n, .. } | TOp::After { delay_us, n, .. } => (delay_us, n),
                             _ => continue,
@@ -872,7 +1088,7 @@ pub fn build_timeout(rng: &mut Rng, tier: u32, race: bool) -> LiveBuilt {
                         ret("io.tread", rc(&r));
                         match r {
                             Err(e) if e.kind() == std::io::ErrorKind::TimedOut => match d {
-                                None => fail(&fails, format!("rd: op #{k} {op:?}: read WITHOUT a time-out failed with TimedOut after {el:?} (timer of an earlier operation)")),
+                                None => fail(&fails, format!("F26: rd: op #{k} {op:?}: read WITHOUT a time-out failed with TimedOut after {el:?} (timer of an earlier wait)")),
                                 Some(d) if el < d => {
                                     fail(&fails, format!("rd: op #{k} {op:?}: TimedOut after {el:?}, earlier than the configured {d:?}"))
                                 }
@@ -902,9 +1118,21 @@ pub fn build_timeout(rng: &mut Rng, tier: u32, race: bool) -> LiveBuilt {
                     park_sock(rd);
                 })
             };
+            // every operation of the reader either has a time-out (<= 700 ms) or is fed: it ends on its own. If nothing at all has
+            // happened for 6 s it never will (the time-out was lost, or the thread that was to resume the reader has died)
+            if !wait_quiet(|| reader.is_done(), 6000) {
+                clear_stalls();
+                stop.store(true, Ordering::SeqCst);
+                let mut v: Vec<String> = std::mem::take(&mut *RT_PANICS.lock().unwrap());
+                v.push("F26: hang: the reader never came back from a read with a time-out / with data fed (no hooked event for 6 s)".into());
+                v.extend(fails.lock().unwrap().iter().cloned());
+                poison(&v);
+                return tag_consequences(v);
+            }
             if reader.join().is_err() {
                 fail(&fails, "actor rd panicked".into());
             }
+            clear_stalls();
             stop.store(true, Ordering::SeqCst);
             let _ = feeder.join();
             let _ = served;
@@ -917,7 +1145,13 @@ pub fn build_timeout(rng: &mut Rng, tier: u32, race: bool) -> LiveBuilt {
 
 pub fn build_cancel(rng: &mut Rng, tier: u32) -> LiveBuilt {
     let seed = rng.next();
-    let what = rng.below(3); // 0 tcp read, 1 unix read, 2 tcp accept
+    // 0 tcp read, 1 unix read, 2 tcp accept, 3 two sockets: a read on socket A that blocks and is served, then a read on socket B
+    // that only the cancel can end (finding 6, `F27:`: on a tree without `fix: io-stale-set_io` the late kernel tail of the read on A
+    // re-registers A for cancel AFTER the read on B has registered B: the canceller then looks at the wrong socket)
+    let what = rng.below(4);
+    let feed_delay_us = [0u64, 0, 20, 100, 400][rng.below(5) as usize]; // two sockets: when A is fed, after the victim has started
+    // two sockets: the registration for cancel of the read on A is held for this long (`STALL_SETIO_US`), 2 of 3 scenarios
+    let stall_setio_us = if rng.chance(667) { 800 + rng.below(2500) } else { 0 };
     let with_timeout = rng.chance(300); // the victim's read also has a (long) time-out armed
     let cancel_delay_us = [0u64, 0, 30, 100, 300, 1000, 3000][rng.below(7) as usize];
     let pre_bytes = if rng.chance(400) { 1 + rng.below(2000) as usize } else { 0 }; // data the victim reads before it blocks
@@ -927,20 +1161,23 @@ pub fn build_cancel(rng: &mut Rng, tier: u32) -> LiveBuilt {
     let canceller_thread = rng.chance(500);
     let may_connect = true;
     let header = format!(
-        "family=io_cancel victim={} timeout={} delay_us={} pre={} others={}",
-        ["tcp_read", "unix_read", "tcp_accept"][what as usize],
+        "family=io_cancel victim={} timeout={} delay_us={} pre={} others={} stall={stall_setio_us}",
+        ["tcp_read", "unix_read", "tcp_accept", "two_sock"][what as usize],
         with_timeout as u8,
         cancel_delay_us,
         pre_bytes,
         others
     );
     LiveBuilt {
-        header,
+        header: format!("{header} {}", source_flags()),
         filter: FILTER.to_vec(),
-        hang_ms: 4000,
+        hang_ms: 7000,
         run: Box::new(move || {
             scenario_begin();
             let fails: Fails = Arc::new(Mutex::new(vec![]));
+            if let Some(v) = poisoned_run(&fails) {
+                return v;
+            }
             // unaffected traffic on other connections
             let mut js = vec![];
             for (i, p) in other_plans.into_iter().enumerate() {
@@ -948,6 +1185,7 @@ pub fn build_cancel(rng: &mut Rng, tier: u32) -> LiveBuilt {
             }
             let data = Arc::new(payload(seed, 9, pre_bytes.max(1)));
             let entered = Arc::new(AtomicBool::new(false));
+            let phase2 = Arc::new(AtomicBool::new(false));
             let reached_end = Arc::new(AtomicBool::new(false));
             let dropped = Arc::new(AtomicUsize::new(0));
             // what the victim owns: its destructor must run exactly once at the cancel; the close of the socket itself is
@@ -960,7 +1198,7 @@ pub fn build_cancel(rng: &mut Rng, tier: u32) -> LiveBuilt {
                     self.1.fetch_add(1, Ordering::SeqCst);
                     if let Some(t) = self.0.take() {
                         if keepalive() {
-                            self.2.lock().unwrap_or_else(|e| e.into_inner()).push(Box::new(t));
+                            self.2.lock().unwrap().push(Box::new(t));
                         }
                     }
                 }
@@ -970,7 +1208,49 @@ pub fn build_cancel(rng: &mut Rng, tier: u32) -> LiveBuilt {
                 S(Stream),
                 Addr(#[allow(dead_code)] std::net::SocketAddr),
             }
+            let mut peer_b: Option<Stream> = None;
             let (victim, mut peer): (coroutine::JoinHandle<()>, Peer) = match what {
+                3 => {
+                    let (a, pa) = UnixStream::pair().unwrap();
+                    let (b, pb) = UnixStream::pair().unwrap();
+                    peer_b = Some(Stream::Unix(Box::new(pb)));
+                    let need = pre_bytes.max(1);
+                    let (entered, phase2, reached_end, fails, data) = (entered.clone(), phase2.clone(), reached_end.clone(), fails.clone(), data.clone());
+                    let mut owned = Owned(Some((Box::new(a), Box::new(b))), dropped.clone(), deferred.clone());
+                    let h = unsafe {
+                        coroutine::Builder::new().name("victim".into()).stack_size(0x4000).spawn(move || {
+                            let (a, b) = owned.0.as_mut().unwrap();
+                            if with_timeout {
+                                b.set_read_timeout(Some(Duration::from_millis(1500))).unwrap();
+                            }
+                            let mut buf = vec![0u8; 4096];
+                            let mut got = 0usize;
+                            STALL_SETIO_US.store(stall_setio_us, Ordering::Relaxed);
+                            entered.store(true, Ordering::SeqCst);
+                            while got < need {
+                                call("io.read", buf.len() as u64, 0);
+                                let r = a.read(&mut buf);
+                                ret("io.read", rc(&r));
+                                match r {
+                                    Ok(n) if n > 0 && got + n <= need && buf[..n] == data[got..got + n] => got += n,
+                                    other => {
+                                        fail(&fails, format!("victim: first socket: read returned {other:?} at {got} of {need} bytes"));
+                                        break;
+                                    }
+                                }
+                            }
+                            phase2.store(true, Ordering::SeqCst);
+                            call("io.read", buf.len() as u64, 0);
+                            let r = b.read(&mut buf);
+                            ret("io.read", rc(&r));
+                            // nothing is ever sent on B and its peer stays open: only the cancel can end this read
+                            fail(&fails, format!("F27: victim: blocked read on the second socket returned {r:?} instead of being cancelled"));
+                            reached_end.store(true, Ordering::SeqCst);
+                        })
+                    }
+                    .unwrap();
+                    (h, Peer::S(Stream::Unix(Box::new(pa))))
+                }
                 0 | 1 => {
                     let (v, p) = if what == 0 {
                         let l = Box::new(TcpListener::bind("127.0.0.1:0").unwrap());
@@ -1037,7 +1317,14 @@ pub fn build_cancel(rng: &mut Rng, tier: u32) -> LiveBuilt {
                     (h, Peer::Addr(a))
                 }
             };
-            // data the victim consumes before it blocks
+            // data the victim consumes before it blocks (two sockets: fed once the victim is on its way into the read on A)
+            let pre_bytes = if what == 3 { pre_bytes.max(1) } else { pre_bytes };
+            if what == 3 {
+                wait_quiet(|| entered.load(Ordering::SeqCst), 1000);
+                if feed_delay_us > 0 {
+                    std::thread::sleep(Duration::from_micros(feed_delay_us));
+                }
+            }
             if pre_bytes > 0 {
                 if let Peer::S(p) = &mut peer {
                     let mut off = 0;
@@ -1056,7 +1343,11 @@ pub fn build_cancel(rng: &mut Rng, tier: u32) -> LiveBuilt {
             // middle of its subscribe, long after it blocked)
             let co = victim.coroutine().clone();
             if keepalive() {
-                KEEP.lock().unwrap_or_else(|e| e.into_inner()).push(victim.coroutine().clone());
+                KEEP.lock().unwrap().push(victim.coroutine().clone());
+            }
+            if what == 3 {
+                // the cancel is meant for the read on B
+                wait_quiet(|| phase2.load(Ordering::SeqCst), 1000);
             }
             let do_cancel = move || {
                 if cancel_delay_us > 0 {
@@ -1070,6 +1361,20 @@ pub fn build_cancel(rng: &mut Rng, tier: u32) -> LiveBuilt {
                 let _ = spawn_thread("canc", do_cancel).join();
             } else {
                 do_cancel();
+            }
+            // a cancelled coroutine ends: it is blocked in a registered io operation, or it sees the bit at its next yield
+            // (a victim whose read has a 1.5 s time-out comes back by that at the latest – with the wrong error, see its oracle)
+            if !wait_quiet(|| victim.is_done(), 5000) {
+                clear_stalls();
+                let mut v: Vec<String> = std::mem::take(&mut *RT_PANICS.lock().unwrap());
+                v.push(format!(
+                    "{}: hang: the cancelled coroutine (victim={}) was never resumed: blocked for ever in its io operation (no hooked event for 5 s)",
+                    if v.is_empty() { "F27" } else { "F26" },
+                    ["tcp_read", "unix_read", "tcp_accept", "two_sock"][what as usize]
+                ));
+                v.extend(fails.lock().unwrap().iter().cloned());
+                poison(&v);
+                return tag_consequences(v);
             }
             match victim.join() {
                 Ok(()) => fail(&fails, format!("victim: join returned Ok after cancel (reached_end={})", reached_end.load(Ordering::SeqCst))),
@@ -1086,7 +1391,7 @@ pub fn build_cancel(rng: &mut Rng, tier: u32) -> LiveBuilt {
             // the other connections finish on their own, then everything is quiet
             join_all(js, &fails);
             settle();
-            let d: Vec<_> = std::mem::take(&mut *deferred.lock().unwrap_or_else(|e| e.into_inner()));
+            let d: Vec<_> = std::mem::take(&mut *deferred.lock().unwrap());
             drop(d);
             // what the victim owned is closed: the peer reads EOF
             match peer {
@@ -1106,6 +1411,16 @@ pub fn build_cancel(rng: &mut Rng, tier: u32) -> LiveBuilt {
                 // (the listener was captured by the cancelled closure: covered by the drop counter above; the port
                 // may already belong to somebody else, so no connect probe)
                 Peer::Addr(_) => {}
+            }
+            if let Some(mut p) = peer_b {
+                let mut b = [0u8; 16];
+                call("io.read", 16, 0);
+                let r = p.read(&mut b);
+                ret("io.read", rc(&r));
+                if !matches!(r, Ok(0)) {
+                    fail(&fails, format!("peer of the cancelled coroutine's second socket: read returned {r:?}, expected end of stream"));
+                }
+                park_sock(p);
             }
             scenario_end(&fails)
         }),
@@ -1127,7 +1442,7 @@ pub fn build_cancel_shared(rng: &mut Rng, _tier: u32) -> LiveBuilt {
     let survivor_co = rng.chance(500);
     let header = format!("family=io_cancel_shared t1={t1} cancel_after={cancel_after_ms} feed_after={feed_after_ms} survivor={}", if survivor_co { "co" } else { "thread" });
     LiveBuilt {
-        header,
+        header: format!("{header} {}", source_flags()),
         filter: FILTER.to_vec(),
         hang_ms: 4000,
         run: Box::new(move || {
@@ -1154,7 +1469,7 @@ pub fn build_cancel_shared(rng: &mut Rng, _tier: u32) -> LiveBuilt {
                 }
                 .unwrap()
             };
-            KEEP.lock().unwrap_or_else(|e| e.into_inner()).push(victim.coroutine().clone());
+            KEEP.lock().unwrap().push(victim.coroutine().clone());
             std::thread::sleep(Duration::from_millis(cancel_after_ms));
             call("co.cancel", 0, 0);
             unsafe { victim.coroutine().cancel() };
@@ -1211,13 +1526,16 @@ pub fn build_cancel_shared(rng: &mut Rng, _tier: u32) -> LiveBuilt {
 /// The shape of the crate's own test `os::unix::net::test::iter`, which hangs in about 2 % of looped runs under load on the
 /// unchanged tree: a coroutine accepts `n` connections one after the other on a UnixListener and reads one byte from each; a
 /// plain thread connects `n` times, writes one byte and drops the stream at once; sockets are dropped while their kernel tails may still run, as in the test.
-pub fn build_unix_iter(rng: &mut Rng, _tier: u32) -> LiveBuilt {
+pub fn build_unix_iter(rng: &mut Rng, tier: u32) -> LiveBuilt {
     let seed = rng.next();
+    if rng.chance(500) {
+        return build_accept_burst(rng, tier, seed);
+    }
     let n = 2 + rng.below(5) as usize;
     let gap_us = [0u64, 0, 0, 20, 100][rng.below(5) as usize];
     let header = format!("family=io_unix_iter conns={n} gap_us={gap_us}");
     LiveBuilt {
-        header,
+        header: format!("{header} {}", source_flags()),
         filter: FILTER.to_vec(),
         hang_ms: 3000,
         run: Box::new(move || {
@@ -1249,7 +1567,7 @@ pub fn build_unix_iter(rng: &mut Rng, _tier: u32) -> LiveBuilt {
                 })
             }
             .unwrap();
-            KEEP.lock().unwrap_or_else(|e| e.into_inner()).push(server.coroutine().clone());
+            KEEP.lock().unwrap().push(server.coroutine().clone());
             for k in 0..n {
                 call("io.connect_std", 0, 0); // (in thread context UnixStream::connect is the blocking std connect)
                 let r = UnixStream::connect(&path);
@@ -1280,6 +1598,231 @@ pub fn build_unix_iter(rng: &mut Rng, _tier: u32) -> LiveBuilt {
 
 // ---------------------------------------------------------------- io_unix_churn (reproducer of a finding, not part of the default check)
 
+// ---------------------------------------------------------------- accept burst (second kind of family io_unix_iter)
+
+/// a listener socket of either kind, owned by the acceptor
+enum Lst {
+    Tcp(TcpListener),
+    Unix(may::os::unix::net::UnixListener),
+}
+impl Lst {
+    fn accept(&self) -> std::io::Result<Stream> {
+        match self {
+            Lst::Tcp(l) => l.accept().map(|(s, _)| Stream::Tcp(Box::new(s))),
+            Lst::Unix(l) => l.accept().map(|(s, _)| Stream::Unix(Box::new(s))),
+        }
+    }
+}
+
+/// ACCEPT BURST: after 0-2 sequential connect / accept pairs, `n` clients (plain threads with the blocking std connect, coroutines with
+/// may's connect) connect to a TcpListener / UnixListener while the acceptor (coroutine or plain thread) is busy elsewhere; when all of
+/// them are connected – the backlog holds `n` connections, the listener has seen one or a few readiness edges – the acceptor is let
+/// go and must accept all `n`, although nobody connects any more: the edge-triggered `io_flag` says that something happened, not how
+/// much is queued. Each accepted stream carries a greeting (client id, a seed-derived byte) that is checked and acknowledged, so every
+/// client is handed out exactly once and gets its own connection. Oracle for the stranded acceptor: `n` clients connected, fewer
+/// accepted, no hooked event by anybody for 5 s.
+fn build_accept_burst(rng: &mut Rng, tier: u32, seed: u64) -> LiveBuilt {
+    let tcp = rng.chance(500);
+    let acc_co = rng.chance(600);
+    let warm = rng.below(3) as usize;
+    let n = 2 + rng.below(if tier > 0 { 31 } else { 7 }) as usize;
+    let cl_co: Vec<bool> = (0..warm + n).map(|_| rng.chance(400)).collect();
+    let busy_us = [300u64, 1000, 3000][rng.below(3) as usize];
+    let gap_us = [0u64, 0, 50, 400][rng.below(4) as usize]; // between two accepts of the burst
+    let header = format!(
+        "family=io_unix_iter kind=burst listener={} acceptor={} warm={warm} n={n} clients={} busy_us={busy_us} gap_us={gap_us}",
+        if tcp { "tcp" } else { "unix" },
+        if acc_co { "co" } else { "thread" },
+        cl_co.iter().map(|c| if *c { 'c' } else { 't' }).collect::<String>()
+    );
+    LiveBuilt {
+        header: format!("{header} {}", source_flags()),
+        filter: FILTER.to_vec(),
+        hang_ms: 7000,
+        run: Box::new(move || {
+            scenario_begin();
+            let fails: Fails = Arc::new(Mutex::new(vec![]));
+            if let Some(v) = poisoned_run(&fails) {
+                return v;
+            }
+            let path = format!("/tmp/vh_io_{}_{}.sock", std::process::id(), seed);
+            let _ = std::fs::remove_file(&path);
+            let (lst, addr) = if tcp {
+                let l = TcpListener::bind("127.0.0.1:0").unwrap();
+                let a = l.local_addr().unwrap();
+                (Lst::Tcp(l), Some(a))
+            } else {
+                (Lst::Unix(may::os::unix::net::UnixListener::bind(&path).unwrap()), None)
+            };
+            let total = warm + n;
+            let key = move |id: usize| (seed as u8).wrapping_mul(31).wrapping_add(id as u8 ^ 0xa5);
+            let connected = Arc::new(AtomicUsize::new(0)); // clients whose connect has returned
+            let accepted = Arc::new(AtomicUsize::new(0));
+            let go = Arc::new(AtomicUsize::new(0)); // how many clients may connect
+            let release = Arc::new(AtomicBool::new(false)); // the acceptor may start on the burst
+            // ---- the acceptor
+            let acceptor = {
+                let (fails, connected, accepted, go, release) = (fails.clone(), connected.clone(), accepted.clone(), go.clone(), release.clone());
+                spawn_actor("acc", acc_co, move || {
+                    let nap = |us: u64| {
+                        if acc_co {
+                            coroutine::sleep(Duration::from_micros(us));
+                        } else {
+                            std::thread::sleep(Duration::from_micros(us));
+                        }
+                    };
+                    let mut seen = vec![false; total];
+                    for k in 0..total {
+                        if k < warm {
+                            go.store(k + 1, Ordering::SeqCst); // sequential: one client, one accept
+                        } else if k == warm {
+                            // busy elsewhere while the burst connects
+                            go.store(total, Ordering::SeqCst);
+                            while !release.load(Ordering::SeqCst) {
+                                nap(busy_us);
+                            }
+                        } else if gap_us > 0 {
+                            nap(gap_us);
+                        }
+                        call("io.accept", 0, 0);
+                        let r = lst.accept();
+                        ret("io.accept", if r.is_ok() { 0 } else { (-4i64) as u64 });
+                        let mut s = match r {
+                            Ok(s) => s,
+                            Err(e) => {
+                                fail(&fails, format!("acc: accept #{k} failed: {e:?}"));
+                                return;
+                            }
+                        };
+                        accepted.fetch_add(1, Ordering::SeqCst);
+                        // the greeting says who it is
+                        let mut b = [0u8; 2];
+                        let mut got = 0;
+                        while got < 2 {
+                            call("io.read", 2, 0);
+                            let r = s.read(&mut b[got..]);
+                            ret("io.read", rc(&r));
+                            match r {
+                                Ok(m) if m > 0 => got += m,
+                                other => {
+                                    fail(&fails, format!("acc: connection #{k}: greeting read returned {other:?}"));
+                                    return;
+                                }
+                            }
+                        }
+                        let id = b[0] as usize;
+                        if id >= total || b[1] != key(id) {
+                            fail(&fails, format!("acc: connection #{k}: greeting {b:?} is not one of the clients'"));
+                        } else if seen[id] {
+                            fail(&fails, format!("acc: connection #{k}: client {id} was handed out twice"));
+                        } else {
+                            seen[id] = true;
+                            if id < warm && id != k {
+                                fail(&fails, format!("acc: accept #{k} returned the connection of warm-up client {id}"));
+                            }
+                        }
+                        call("io.write", 1, 0);
+                        let r = s.write(&[b[0] ^ 0x5a]);
+                        ret("io.write", rc(&r));
+                        if !matches!(r, Ok(1)) {
+                            fail(&fails, format!("acc: connection #{k}: ack write returned {r:?}"));
+                        }
+                        park_sock(s);
+                    }
+                    let _ = connected;
+                })
+            };
+            // ---- the clients
+            let mut cls = vec![];
+            for id in 0..total {
+                let (fails, connected, go) = (fails.clone(), connected.clone(), go.clone());
+                let path = path.clone();
+                let is_co = cl_co[id];
+                cls.push((
+                    format!("cl{id}"),
+                    spawn_actor(&format!("cl{id}"), is_co, move || {
+                        while go.load(Ordering::SeqCst) <= id {
+                            if is_co {
+                                coroutine::sleep(Duration::from_micros(100));
+                            } else {
+                                std::thread::sleep(Duration::from_micros(50));
+                            }
+                        }
+                        let greet = [id as u8, key(id)];
+                        let mut ack = [0u8; 1];
+                        // a thread connects and talks through std (nothing of may involved: it only fills the backlog); a coroutine uses may
+                        let r: std::io::Result<usize> = if !is_co {
+                            use std::io::{Read as _, Write as _};
+                            match addr {
+                                Some(a) => std::net::TcpStream::connect(a).and_then(|mut s| {
+                                    connected.fetch_add(1, Ordering::SeqCst);
+                                    s.write_all(&greet)?;
+                                    s.read(&mut ack)
+                                }),
+                                None => std::os::unix::net::UnixStream::connect(&path).and_then(|mut s| {
+                                    connected.fetch_add(1, Ordering::SeqCst);
+                                    s.write_all(&greet)?;
+                                    s.read(&mut ack)
+                                }),
+                            }
+                        } else {
+                            call("io.connect", 0, 0);
+                            let r = match addr {
+                                Some(a) => TcpStream::connect(a).map(|s| Stream::Tcp(Box::new(s))),
+                                None => UnixStream::connect(&path).map(|s| Stream::Unix(Box::new(s))),
+                            };
+                            ret("io.connect", if r.is_ok() { 0 } else { (-4i64) as u64 });
+                            r.and_then(|mut s| {
+                                connected.fetch_add(1, Ordering::SeqCst);
+                                let mut off = 0;
+                                while off < 2 {
+                                    call("io.write", (2 - off) as u64, 0);
+                                    let w = s.write(&greet[off..]);
+                                    ret("io.write", rc(&w));
+                                    off += w?;
+                                }
+                                call("io.read", 1, 0);
+                                let r = s.read(&mut ack);
+                                ret("io.read", rc(&r));
+                                park_sock(s);
+                                r
+                            })
+                        };
+                        match r {
+                            Ok(1) if ack[0] == id as u8 ^ 0x5a => {}
+                            other => fail(&fails, format!("cl{id}: connect / greeting / ack: {other:?}, ack {ack:?}")),
+                        }
+                    }),
+                ));
+            }
+            // ---- main: when the whole burst is connected (and the acceptor has been busy meanwhile) let the acceptor go
+            let all_in = wait_quiet(|| connected.load(Ordering::SeqCst) == total, 5000);
+            if !all_in {
+                fail(&fails, format!("main: only {} of {total} clients got connected", connected.load(Ordering::SeqCst)));
+            }
+            release.store(true, Ordering::SeqCst);
+            if !wait_quiet(|| acceptor.is_done(), 5000) {
+                let mut v: Vec<String> = std::mem::take(&mut *RT_PANICS.lock().unwrap());
+                v.push(format!(
+                    "hang: the acceptor is stranded: {} of {total} clients are connected (the backlog is not empty, nobody will connect any more), {} accepted, it does not come back from accept (no hooked event for 5 s)",
+                    connected.load(Ordering::SeqCst),
+                    accepted.load(Ordering::SeqCst)
+                ));
+                v.extend(fails.lock().unwrap().iter().cloned());
+                poison(&v);
+                return tag_consequences(v);
+            }
+            if acceptor.join().is_err() {
+                fail(&fails, "actor acc panicked".into());
+            }
+            join_all(cls, &fails);
+            let _ = std::fs::remove_file(&path);
+            scenario_end(&fails)
+        }),
+    }
+}
+
+
 /// FINDING reproducer: `CoIo` (UnixStream / UnixListener / UnixDatagram / the generic wrapper) drops `inner` – which closes the
 /// fd – BEFORE `io`, whose drop does EPOLL_CTL_DEL on that fd NUMBER. In between another thread can open a socket that gets the
 /// same number and register it; the late delete then removes the NEW socket's registration and that socket never sees a
@@ -1287,17 +1830,25 @@ pub fn build_unix_iter(rng: &mut Rng, _tier: u32) -> LiveBuilt {
 /// Several pairs of plain threads create Unix socket pairs, block in a read, feed it and drop both ends at once, concurrently.
 /// (Seen first in the crate's own tests: `os::unix::net::test::{basic,pair,try_clone,iter}` hang in ~2 % of looped runs under load).
 pub fn build_unix_churn(rng: &mut Rng, tier: u32) -> LiveBuilt {
-    let _seed = rng.next();
+    let seed = rng.next();
     let pairs = 3 + rng.below(3) as usize;
     let rounds = if tier > 0 { 120 } else { 60 };
-    let header = format!("family=io_unix_churn pairs={pairs} rounds={rounds}");
+    // finding 7 (`F28:`): a plain-thread caller parks ONCE while its proxy coroutine waits for the io (`yield_with_io`); `thread::park`
+    // may return for any other unpark of the thread (the std channel the readers get their sockets from can leave a token behind –
+    // that is how the defect was found, 1 hang in ~2000 scenarios – or spuriously). `stale` readers leave such a token on purpose before
+    // some of their reads: legal, and harmless for code that parks in a loop
+    let stale_every = [0usize, 0, 3, 7][rng.below(4) as usize];
+    let header = format!("family=io_unix_churn pairs={pairs} rounds={rounds} stale_every={stale_every}");
     LiveBuilt {
-        header,
+        header: format!("{header} {}", source_flags()),
         filter: FILTER.to_vec(),
-        hang_ms: 3000,
+        hang_ms: 8000,
         run: Box::new(move || {
             scenario_begin();
             let fails: Fails = Arc::new(Mutex::new(vec![]));
+            if let Some(v) = poisoned_run(&fails) {
+                return v;
+            }
             let mut js = vec![];
             for p in 0..pairs {
                 let (tx, rx) = std::sync::mpsc::channel::<UnixStream>();
@@ -1330,6 +1881,9 @@ pub fn build_unix_churn(rng: &mut Rng, tier: u32) -> LiveBuilt {
                     spawn_thread(&format!("cr{p}"), move || {
                         for k in 0..rounds {
                             let Ok(mut b) = rx.recv() else { return };
+                            if stale_every > 0 && (k + p + seed as usize) % stale_every == 0 {
+                                std::thread::current().unpark();
+                            }
                             let mut buf = [0u8; 4];
                             call("io.read", 4, 0);
                             let r = b.read(&mut buf);
@@ -1340,6 +1894,19 @@ pub fn build_unix_churn(rng: &mut Rng, tier: u32) -> LiveBuilt {
                         }
                     }),
                 ));
+            }
+            // every read is fed 30-120 us after its socket was handed over: nobody stays blocked. No hooked event at all for 6 s while a
+            // reader has not finished = it never will
+            if !wait_quiet(|| js.iter().all(|(_, j)| j.is_done()), 6000) {
+                let who: Vec<&str> = js.iter().filter(|(_, j)| !j.is_done()).map(|(n, _)| n.as_str()).collect();
+                let mut v: Vec<String> = std::mem::take(&mut *RT_PANICS.lock().unwrap());
+                v.push(format!(
+                    "F28: hang: {} never came back from a blocking read although its byte was written (plain-thread caller: the thread went on before its proxy coroutine was through with the request, the proxy then subscribed with a dangling request) (no hooked event for 6 s)",
+                    who.join(", ")
+                ));
+                v.extend(fails.lock().unwrap().iter().cloned());
+                poison(&v);
+                return tag_consequences(v);
             }
             join_all(js, &fails);
             scenario_end(&fails)
